@@ -1398,6 +1398,14 @@ def gen_nid(rng, n_random):
             steps.append({"op": "decode", "kts": KT_ALL, "input": {"from": "r"}, "tag": "nid_both"})
             steps.append({"op": "call", "h": "r", "m": "set_udp4", "args": {"port": 2}, "signer": name})
             steps.append({"op": "decode", "kts": KT_ALL, "input": {"from": "r"}, "tag": "nid_both"})
+    # ed25519 keys in non-canonical encodings (the neutral element with the x sign bit set / y = p + 1 / both) under the
+    # trivial signature: where the back-end accepts them, the id is the hash of the 32 bytes AS STORED
+    ident = [1] + [0] * 31
+    for enc in ([1] + [0] * 30 + [0x80], [0xee] + [0xff] * 30 + [0x7f], [0xee] + [0xff] * 31, ident, [0] * 32, [0xec] + [0xff] * 30 + [0x7f]):
+        for extra in ([], [[B("udp"), enc_uint(9)]]):
+            pairs = sorted([[B("id"), enc_str(B("v4"))], [B("ed25519"), enc_str(enc)]] + extra, key=lambda p: bytes(p[0]))
+            steps.append({"op": "decode", "kts": KT_ALL, "input": {"rec": {"seq": [1], "pairs": pairs, "sig": {"raw": ident + [0] * 32}}}, "tag": "nid_ed_noncanonical"})
+        steps.append({"op": "decpub", "bytes": enc})
     for _ in range(n_random):
         name = "e:" + bytes(rand_bytes(rng, 32)).hex()
         for kt in ("ed", "comb"):
